@@ -81,6 +81,11 @@ class StandardQTomographyBasedWeightedRelativeEntropy(WeightedRelativeEntropy):
                 extend_weights += [weight] * len(prob_dist)
             self._extend_weights = np.array(extend_weights, dtype=np.float64)
 
+    def _set_weights_by_mode(self, mode_weight: str, data: List) -> None:
+        # the weights are set here, after set_func_*_from_standard_qt: rebuild the extended weights from them
+        super()._set_weights_by_mode(mode_weight, data)
+        self._calc_extend_weights()
+
     def set_prob_dists_q(self, prob_dists_q: List[np.ndarray]) -> None:
         """sets vectors of ``q``, by default None.
 
